@@ -45,10 +45,12 @@ CmdFaults  == {"exit_before_write", "exit_after_partial", "exit_after_all", "sig
 PortId(n, port) == n \o "." \o port
 SeqPorts(n, s)  == {PortId(n, s[i]) : i \in DOMAIN s}
 InPortsTab    == [n \in PNames |-> IF IsCmd(n) THEN SeqPorts(n, PR(n).ins) ELSE {}]
-ParamPortsTab == [n \in PNames |-> IF IsCmd(n) THEN SeqPorts(n, PR(n).params) ELSE {}]
+IsRelay(n)    == PR(n).kind = "pcomb"     \* ParamCombinator with one port: collects its whole input, then emits it
+ParamPortsTab == [n \in PNames |-> IF IsCmd(n) \/ IsRelay(n) THEN SeqPorts(n, PR(n).params) ELSE {}]
 FileOutsTab   == [n \in PNames |-> IF IsCmd(n) THEN SeqPorts(n, PR(n).outs)
                                    ELSE IF PR(n).kind = "src" THEN {PortId(n, "out")} ELSE {}]
-ParamOutsTab  == [n \in PNames |-> IF PR(n).kind = "psrc" THEN {PortId(n, "out")} ELSE {}]
+ParamOutsTab  == [n \in PNames |-> IF PR(n).kind = "psrc" THEN {PortId(n, "out")}
+                                   ELSE IF IsRelay(n) THEN {PortId(n, PR(n).params[i]) \o ">" : i \in DOMAIN PR(n).params} ELSE {}]
 InPortsOf(n)    == InPortsTab[n]
 ParamPortsOf(n) == ParamPortsTab[n]
 FileOutsOf(n)   == FileOutsTab[n]
@@ -83,6 +85,7 @@ Driver == IF Leaves = {} THEN "SINK" ELSE CHOOSE n \in Leaves : TRUE
 UpsOfPort(port) == {e.from : e \in {x \in AllEdges : x.to = port /\ x.fp \in RunSet}}
                    \cup {FeedOut(f) : f \in {x \in Feeds : x.to = port}}
 ConsumerPorts == UNION {InPortsOf(n) \cup ParamPortsOf(n) : n \in RunSet}
+Relays == {n \in RunSet : IsRelay(n)}
 Unwired == \E port \in ConsumerPorts :
               {e \in AllEdges : e.to = port} = {} /\ {f \in Feeds : f.to = port} = {}
 WiringFails == Cardinality(Leaves) > 1 \/ Unwired \/ RunSet = {}
@@ -104,9 +107,9 @@ FeedOf(id) == CHOOSE f \in Feeds : FeedId(f) = id
 EmIds     == Emitters \cup FeedIds
 EmItemsTab == [e \in EmIds |-> IF e \in FeedIds THEN FeedOf(e).values
                                ELSE IF PR(e).kind = "src" THEN PR(e).items ELSE PR(e).values]
-EmOutTab   == [e \in EmIds |-> IF e \in FeedIds THEN FeedOut(FeedOf(e)) ELSE PortId(e, "out")]
+EmOutTab   == [e \in EmIds |-> IF e \in FeedIds THEN FeedOut(FeedOf(e))
+                               ELSE IF IsRelay(e) THEN PortId(e, PR(e).params[1]) \o ">" ELSE PortId(e, "out")]
 EmRemotesTab == [e \in EmIds |-> IF e \in FeedIds THEN {FeedOf(e).to} ELSE RemotesOf(EmOutTab[e])]
-EmItems(e) == EmItemsTab[e]
 EmOut(e)   == EmOutTab[e]
 EmRemotes(e) == EmRemotesTab[e]
 CmdRun    == {n \in RunSet : IsCmd(n)}
@@ -136,7 +139,8 @@ ExpIns(n, k)    == [i \in DOMAIN PR(n).ins    |-> InStream(PortId(n, PR(n).ins[i
 ExpParams(n, k) == [i \in DOMAIN PR(n).params |-> InStream(PortId(n, PR(n).params[i]))[k]]
 OutStream(op) ==
   LET n == Owner(op) IN
-  IF ~IsCmd(n) THEN (IF PR(n).kind = "src" THEN PR(n).items ELSE PR(n).values)
+  IF IsRelay(n) THEN InStream(PortId(n, PR(n).params[1]))
+  ELSE IF ~IsCmd(n) THEN (IF PR(n).kind = "src" THEN PR(n).items ELSE PR(n).values)
   ELSE LET port == CHOOSE o \in ToSet(PR(n).outs) : PortId(n, o) = op
        IN  [k \in 1..NSets(n) |-> OutItem(n, port, ExpIns(n, k), ExpParams(n, k))]
 
@@ -152,7 +156,7 @@ RECURSIVE OrdOut(_)
 OrdIn(port) == Cardinality(UpsOfPort(port)) = 1 /\
                (\A e \in {x \in AllEdges : x.to = port /\ x.fp \in RunSet} : OrdOut(e.from))
 OrdOut(op) == LET n == Owner(op) IN
-              ~IsCmd(n) \/ \A port \in InPortsOf(n) \cup ParamPortsOf(n) : OrdIn(port)
+              (~IsCmd(n) /\ ~IsRelay(n)) \/ \A port \in InPortsOf(n) \cup ParamPortsOf(n) : OrdIn(port)
 \* The set of files is a function of the graph alone when every process with more
 \* than one port receives ordered streams only (restriction of this oracle).
 MergeInsensitive == \A n \in CmdRun :
@@ -170,7 +174,8 @@ VARIABLES
   phase,     \* "init" | "running" | "returned" | "failed"
   q,         \* in-port -> sequence of <<from, item>> in flight / buffered
   ups,       \* in-port -> set of upstream out-ports not yet closed
-  em,        \* emitter -> [i, left, wait, st]   st: "run" | "closing" | "done"
+  em,        \* emitter -> [i, left, wait, st]   st: "collect" (relays only) | "run" | "closing" | "done"
+  relayed,   \* relay -> sequence of values collected so far
   rpc,       \* cmd process -> "idle" | "loop" | "sendout" | "closing" | "done"
   ctpc,      \* cmd process -> createTasks pc: "off"|"recv"|"recvp"|"build"|"offered"|"end"|"closed"
   ctleft,    \* ports still to read in the current iteration
@@ -190,16 +195,18 @@ VARIABLES
   emitted,   \* ghost: out-port -> sequence of items handed to the port
   recvd      \* ghost: in-port -> sequence of <<from, item>> received
 
-vars == <<phase, q, ups, em, rpc, ctpc, ctleft, ctgot, ctopen, offer, tasksnil, tk, ts, started,
+vars == <<phase, q, ups, em, relayed, rpc, ctpc, ctleft, ctgot, ctopen, offer, tasksnil, tk, ts, started,
           sout, cl, tokens, final, failed, execs, emitted, recvd>>
 
+EmItems(e) == IF e \in Relays THEN relayed[e] ELSE EmItemsTab[e]
 AllOuts == UNION {OutsOf(n) : n \in RunSet} \cup {EmOut(e) : e \in FeedIds}
 
 Init ==
   /\ phase = IF WiringFails THEN "failed" ELSE "init"
   /\ q = [port \in AllInPorts |-> <<>>]
   /\ ups = [port \in AllInPorts |-> InitUps(port)]
-  /\ em = [e \in EmIds |-> [i |-> 1, left |-> EmRemotes(e), wait |-> "", st |-> "run"]]
+  /\ em = [e \in EmIds |-> [i |-> 1, left |-> EmRemotes(e), wait |-> "", st |-> IF e \in Relays THEN "collect" ELSE "run"]]
+  /\ relayed = [e \in Relays |-> <<>>]
   /\ rpc = [n \in CmdRun |-> "idle"]
   /\ ctpc = [n \in CmdRun |-> "off"]
   /\ ctleft = [n \in CmdRun |-> {}]
@@ -233,7 +240,7 @@ Active(e) == IF e \in FeedIds THEN phase \in {"init", "running"} ELSE Running
 
 StartProcs == /\ phase = "init"
               /\ phase' = "running"
-              /\ UNCHANGED <<q, ups, em, rpc, ctpc, ctleft, ctgot, ctopen, offer, tasksnil, tk, ts, started,
+              /\ UNCHANGED <<q, ups, em, relayed, rpc, ctpc, ctleft, ctgot, ctopen, offer, tasksnil, tk, ts, started,
                              sout, cl, tokens, final, failed, execs, emitted, recvd>>
 
 (************************ emitters: sources, param sources, feeders *******)
@@ -249,21 +256,36 @@ EmSendBegin(e, r) ==
                  THEN [em EXCEPT ![e] = IF left = {} THEN [@ EXCEPT !.i = @ + 1, !.left = EmRemotes(e)]
                                                       ELSE [@ EXCEPT !.left = left]]
                  ELSE [em EXCEPT ![e] = [@ EXCEPT !.left = left, !.wait = r]]
-  /\ UNCHANGED <<phase, ups, rpc, ctpc, ctleft, ctgot, ctopen, offer, tasksnil, tk, ts, started, sout, cl,
+  /\ UNCHANGED <<phase, ups, relayed, rpc, ctpc, ctleft, ctgot, ctopen, offer, tasksnil, tk, ts, started, sout, cl,
                  tokens, final, failed, execs, recvd>>
 
 EmSendDone(e, r) ==     \* acceptor mode only
   /\ ~Closed /\ Active(e) /\ em[e].wait = r /\ r # ""
   /\ em' = [em EXCEPT ![e] = IF @.left = {} THEN [@ EXCEPT !.i = @ + 1, !.left = EmRemotes(e), !.wait = ""]
                                             ELSE [@ EXCEPT !.wait = ""]]
-  /\ UNCHANGED <<phase, q, ups, rpc, ctpc, ctleft, ctgot, ctopen, offer, tasksnil, tk, ts, started, sout, cl,
+  /\ UNCHANGED <<phase, q, ups, relayed, rpc, ctpc, ctleft, ctgot, ctopen, offer, tasksnil, tk, ts, started, sout, cl,
                  tokens, final, failed, execs, emitted, recvd>>
+
+\* a relay (one-port ParamCombinator) receives until its port is closed, then starts emitting
+RelayRecv(e, i) ==
+  /\ Running /\ e \in Relays /\ em[e].st = "collect"
+  /\ LET port == PortId(e, PR(e).params[1]) IN
+     \/ /\ i > 0 /\ Receivable(port, i)
+        /\ q' = [q EXCEPT ![port] = DropAt(@, i)]
+        /\ recvd' = [recvd EXCEPT ![port] = Append(@, q[port][i])]
+        /\ relayed' = [relayed EXCEPT ![e] = Append(@, q[port][i][2])]
+        /\ em' = em
+     \/ /\ i = 0 /\ PortClosed(port)
+        /\ em' = [em EXCEPT ![e].st = "run"]
+        /\ UNCHANGED <<q, recvd, relayed>>
+  /\ UNCHANGED <<phase, ups, rpc, ctpc, ctleft, ctgot, ctopen, offer, tasksnil, tk, ts, started, sout, cl,
+                 tokens, final, failed, execs, emitted>>
 
 EmFinish(e) ==          \* all items sent: deferred CloseAllOutPorts / pop.Close
   /\ Active(e) /\ em[e].st = "run" /\ em[e].wait = "" /\ em[e].i > Len(EmItems(e))
   /\ em' = [em EXCEPT ![e].st = "closing"]
   /\ cl' = [cl EXCEPT ![e] = {<<EmOut(e), r>> : r \in EmRemotes(e)}]
-  /\ UNCHANGED <<phase, q, ups, rpc, ctpc, ctleft, ctgot, ctopen, offer, tasksnil, tk, ts, started, sout,
+  /\ UNCHANGED <<phase, q, ups, relayed, rpc, ctpc, ctleft, ctgot, ctopen, offer, tasksnil, tk, ts, started, sout,
                  tokens, final, failed, execs, emitted, recvd>>
 
 \* CloseConnection: atomic under the in-port's closeLock
@@ -277,7 +299,7 @@ CloseConn(x, op, r) ==
           /\ rpc' = rpc
      ELSE /\ rpc' = IF cl'[x] = {} THEN [rpc EXCEPT ![x] = "done"] ELSE rpc
           /\ em' = em
-  /\ UNCHANGED <<phase, q, ctpc, ctleft, ctgot, ctopen, offer, tasksnil, tk, ts, started, sout,
+  /\ UNCHANGED <<phase, q, relayed, ctpc, ctleft, ctgot, ctopen, offer, tasksnil, tk, ts, started, sout,
                  tokens, final, failed, execs, emitted, recvd>>
 
 (************************ cmd processes: Run loop and createTasks *********)
@@ -296,7 +318,7 @@ ProcStart(n) ==
           /\ ctpc' = [ctpc EXCEPT ![n] = FirstPhase(n)]
           /\ ctleft' = [ctleft EXCEPT ![n] = PhasePorts(n, FirstPhase(n))]
           /\ phase' = phase
-  /\ UNCHANGED <<q, ups, em, ctgot, ctopen, offer, tasksnil, tk, ts, started, sout, cl,
+  /\ UNCHANGED <<q, ups, em, relayed, ctgot, ctopen, offer, tasksnil, tk, ts, started, sout, cl,
                  tokens, final, failed, execs, emitted, recvd>>
 
 \* one receive of createTasks (file or param port); i = 0 stands for "closed"
@@ -316,7 +338,7 @@ CTRecv(n, port, i) ==
                  ELSE IF ctpc[n] = "recv" /\ ParamPortsOf(n) # {} THEN "recvp" ELSE "build"
      IN /\ ctpc' = [ctpc EXCEPT ![n] = nxt]
         /\ ctleft' = [ctleft EXCEPT ![n] = IF left # {} THEN left ELSE PhasePorts(n, nxt)]
-  /\ UNCHANGED <<phase, ups, em, rpc, offer, tasksnil, tk, ts, started, sout, cl,
+  /\ UNCHANGED <<phase, ups, em, relayed, rpc, offer, tasksnil, tk, ts, started, sout, cl,
                  tokens, final, failed, execs, emitted>>
 
 AfterOffer(n) == IF InPortsOf(n) = {} /\ ParamPortsOf(n) = {} THEN "end" ELSE FirstPhase(n)
@@ -343,7 +365,7 @@ CTOffer(n) ==
              ELSE /\ ctpc' = [ctpc EXCEPT ![n] = AfterOffer(n)]
                   /\ ctleft' = [ctleft EXCEPT ![n] = PhasePorts(n, AfterOffer(n))]
                   /\ ctopen' = [ctopen EXCEPT ![n] = TRUE]
-  /\ UNCHANGED <<q, ups, em, rpc, tasksnil, started, sout, cl,
+  /\ UNCHANGED <<q, ups, em, relayed, rpc, tasksnil, started, sout, cl,
                  tokens, final, failed, execs, emitted, recvd>>
 
 TKey(n, k)  == tk[n][k].key
@@ -365,7 +387,7 @@ TakeTask(n) ==
           /\ ctleft' = [ctleft EXCEPT ![n] = PhasePorts(n, AfterOffer(n))]
           /\ ctopen' = [ctopen EXCEPT ![n] = TRUE]
      ELSE UNCHANGED <<ctpc, ctleft, ctopen>>
-  /\ UNCHANGED <<phase, q, ups, em, rpc, ctgot, tasksnil, tk, sout, cl,
+  /\ UNCHANGED <<phase, q, ups, em, relayed, rpc, ctgot, tasksnil, tk, sout, cl,
                  tokens, final, failed, execs, emitted, recvd>>
 
 \* createTasks has stopped: what still arrives on the process's ports is received and dropped
@@ -375,24 +397,24 @@ CTDrain(n, port, i) ==
   /\ port \in InPortsOf(n) \cup ParamPortsOf(n) /\ Receivable(port, i)
   /\ q' = [q EXCEPT ![port] = DropAt(@, i)]
   /\ recvd' = [recvd EXCEPT ![port] = Append(@, q[port][i])]
-  /\ UNCHANGED <<phase, ups, em, rpc, ctpc, ctleft, ctgot, ctopen, offer, tasksnil, tk, ts, started, sout, cl,
+  /\ UNCHANGED <<phase, ups, em, relayed, rpc, ctpc, ctleft, ctgot, ctopen, offer, tasksnil, tk, ts, started, sout, cl,
                  tokens, final, failed, execs, emitted>>
 
 CTEnd(n) ==           \* createTasks returns, deferred close(ch)
   /\ Running /\ ctpc[n] = "end"
   /\ ctpc' = [ctpc EXCEPT ![n] = "closed"]
-  /\ UNCHANGED <<phase, q, ups, em, rpc, ctleft, ctgot, ctopen, offer, tasksnil, tk, ts, started, sout, cl,
+  /\ UNCHANGED <<phase, q, ups, em, relayed, rpc, ctleft, ctgot, ctopen, offer, tasksnil, tk, ts, started, sout, cl,
                  tokens, final, failed, execs, emitted, recvd>>
 
 TasksClosed(n) ==     \* Run loop sees the closed task channel
   /\ Running /\ rpc[n] = "loop" /\ ctpc[n] = "closed" /\ offer[n] = <<>> /\ ~tasksnil[n]
   /\ tasksnil' = [tasksnil EXCEPT ![n] = TRUE]
-  /\ UNCHANGED <<phase, q, ups, em, rpc, ctpc, ctleft, ctgot, ctopen, offer, tk, ts, started, sout, cl,
+  /\ UNCHANGED <<phase, q, ups, em, relayed, rpc, ctpc, ctleft, ctgot, ctopen, offer, tk, ts, started, sout, cl,
                  tokens, final, failed, execs, emitted, recvd>>
 
 (************************ tasks *******************************************)
 SetTs(n, k, s) == ts' = [ts EXCEPT ![n][k] = s]
-TaskUnch == UNCHANGED <<q, ups, em, rpc, ctpc, ctleft, ctgot, ctopen, offer, tasksnil, tk, started, sout, cl,
+TaskUnch == UNCHANGED <<q, ups, em, relayed, rpc, ctpc, ctleft, ctgot, ctopen, offer, tasksnil, tk, started, sout, cl,
                         emitted, recvd>>
 
 ExBegin(n, k) ==       \* "exec.begin"
@@ -474,7 +496,7 @@ TakeDone(n) ==
      /\ emitted' = [op \in AllOuts |-> IF op \in FileOutsOf(n)
                                         THEN Append(emitted[op], TOut(n, k, PortName(n, op)))
                                         ELSE emitted[op]]
-  /\ UNCHANGED <<phase, q, ups, em, ctpc, ctleft, ctgot, ctopen, offer, tasksnil, tk, cl,
+  /\ UNCHANGED <<phase, q, ups, em, relayed, ctpc, ctleft, ctgot, ctopen, offer, tasksnil, tk, cl,
                  tokens, final, failed, execs, recvd>>
 
 SendOutBegin(n, op, r) ==
@@ -487,14 +509,14 @@ SendOutBegin(n, op, r) ==
           /\ rpc' = [rpc EXCEPT ![n] = IF left = {} THEN "loop" ELSE "sendout"]
      ELSE /\ sout' = [sout EXCEPT ![n].left = left, ![n].wait = <<op, r>>]
           /\ rpc' = rpc
-  /\ UNCHANGED <<phase, ups, em, ctpc, ctleft, ctgot, ctopen, offer, tasksnil, tk, ts, started, cl,
+  /\ UNCHANGED <<phase, ups, em, relayed, ctpc, ctleft, ctgot, ctopen, offer, tasksnil, tk, ts, started, cl,
                  tokens, final, failed, execs, emitted, recvd>>
 
 SendOutDone(n, op, r) ==     \* acceptor mode only
   /\ ~Closed /\ Running /\ rpc[n] = "sendout" /\ sout[n].wait = <<op, r>>
   /\ sout' = [sout EXCEPT ![n].wait = <<>>]
   /\ rpc' = [rpc EXCEPT ![n] = IF sout[n].left = {} THEN "loop" ELSE "sendout"]
-  /\ UNCHANGED <<phase, q, ups, em, ctpc, ctleft, ctgot, ctopen, offer, tasksnil, tk, ts, started, cl,
+  /\ UNCHANGED <<phase, q, ups, em, relayed, ctpc, ctleft, ctgot, ctopen, offer, tasksnil, tk, ts, started, cl,
                  tokens, final, failed, execs, emitted, recvd>>
 
 RunExit(n) ==          \* loop ends, deferred CloseOutPorts ("proc.exit")
@@ -503,7 +525,7 @@ RunExit(n) ==          \* loop ends, deferred CloseOutPorts ("proc.exit")
   /\ LET pend == OutPairsTab[n] IN
      /\ cl' = [cl EXCEPT ![n] = pend]
      /\ rpc' = [rpc EXCEPT ![n] = IF pend = {} THEN "done" ELSE "closing"]
-  /\ UNCHANGED <<phase, q, ups, em, ctpc, ctleft, ctgot, ctopen, offer, tasksnil, tk, ts, started, sout,
+  /\ UNCHANGED <<phase, q, ups, em, relayed, ctpc, ctleft, ctgot, ctopen, offer, tasksnil, tk, ts, started, sout,
                  tokens, final, failed, execs, emitted, recvd>>
 
 (************************ sink and main ***********************************)
@@ -514,7 +536,7 @@ SinkRecv(port, i) ==
   /\ Running /\ SinkRuns /\ port \in SinkPorts /\ Receivable(port, i)
   /\ q' = [q EXCEPT ![port] = DropAt(@, i)]
   /\ recvd' = [recvd EXCEPT ![port] = Append(@, q[port][i])]
-  /\ UNCHANGED <<phase, ups, em, rpc, ctpc, ctleft, ctgot, ctopen, offer, tasksnil, tk, ts, started, sout, cl,
+  /\ UNCHANGED <<phase, ups, em, relayed, rpc, ctpc, ctleft, ctgot, ctopen, offer, tasksnil, tk, ts, started, sout, cl,
                  tokens, final, failed, execs, emitted>>
 
 DriverDone == /\ SinkRuns => \A port \in SinkPorts : PortClosed(port)
@@ -523,7 +545,7 @@ DriverDone == /\ SinkRuns => \A port \in SinkPorts : PortClosed(port)
 MainReturn ==
   /\ Running /\ DriverDone
   /\ phase' = "returned"
-  /\ UNCHANGED <<q, ups, em, rpc, ctpc, ctleft, ctgot, ctopen, offer, tasksnil, tk, ts, started, sout, cl,
+  /\ UNCHANGED <<q, ups, em, relayed, rpc, ctpc, ctleft, ctgot, ctopen, offer, tasksnil, tk, ts, started, sout, cl,
                  tokens, final, failed, execs, emitted, recvd>>
 
 Terminated == phase \in {"returned", "failed"} /\ UNCHANGED vars
@@ -533,6 +555,7 @@ Next ==
   \/ StartProcs
   \/ \E e \in EmIds : \/ \E r \in AllInPorts : EmSendBegin(e, r) \/ EmSendDone(e, r)
                       \/ EmFinish(e)
+  \/ \E e \in Relays : \E i \in 0..Len(q[PortId(e, PR(e).params[1])]) : RelayRecv(e, i)
   \/ \E x \in EmIds \cup CmdRun : \E op \in AllOuts, r \in AllInPorts : CloseConn(x, op, r)
   \/ \E n \in CmdRun :
         \/ ProcStart(n) \/ CTOffer(n) \/ TakeTask(n) \/ CTEnd(n) \/ TasksClosed(n)
